@@ -128,5 +128,35 @@ for d, r, pad in [(7, 2, None), (7, -2, None), (8, 2, 6), (8, -2, 6), (9, 3, 9)]
   if err > 1e-3:
     add("_low_rank_root", [d, r, pad], f"packed root differs from exact root with averaged complement by {err}")
 
+# rank-deficient statistics (G G' with fewer columns than rows) with a positive ridge: null-space eigenvalues are
+# ridge +- round-off; their root value is ridge^(-1/p), never 0
+for d, r, cols in [(6, 1, 2), (8, 2, 3), (8, -2, 3), (10, 3, 4)]:
+  cases += 1
+  G = rng.randint(-3, 4, size=(d, cols)).astype(np.float64)
+  A = G @ G.T
+  eps = 1e-6
+  p = 4
+  try:
+    packed, metrics = ds._low_rank_root(jnp.asarray(A, jnp.float32), p, r, ridge_epsilon=eps, relative_matrix_epsilon=False)
+    V, ie, c, hz = ds._low_rank_unpack(packed, r)
+  except Exception as ex:  # pylint: disable=broad-except
+    add("_low_rank_root", [d, r, cols, "rank-deficient"], f"raised {type(ex).__name__}: {ex}")
+    continue
+  V, ie, c = np.asarray(V, np.float64), np.asarray(ie, np.float64), float(c)
+  got = c * (np.eye(d) - V @ V.T) + V @ np.diag(ie) @ V.T
+  ev, q = np.linalg.eigh(A + eps * np.eye(d))
+  roots = np.maximum(ev, eps) ** (-1.0 / p)
+  keep = np.argsort(ev)[-abs(r):] if r > 0 else np.argsort(ev)[:abs(r)]
+  rest = [i for i in range(d) if i not in set(keep)]
+  vals = roots.copy()
+  vals[rest] = roots[rest].mean()
+  if r > 0:  # retained = well separated top directions: compare the denoted matrix; r < 0 retains a degenerate null space: compare the constant
+    want = q @ np.diag(vals) @ q.T
+    err = float(np.max(np.abs(got - want)) / np.max(np.abs(want)))
+  else:
+    err = abs(c - roots[rest].mean()) / roots[rest].mean()
+  if err > 2e-2:
+    add("_low_rank_root", [d, r, cols, "rank-deficient"], f"packed root differs from the exact root with averaged complement by relative {err:.3g}")
+
 print(json.dumps({"cases": cases, "violations": viol,
                   "bound": f"tier={tier}: d<=9(13), all |r|+2<d, both signs; 4 gradient shapes x 3 ranks; 5 root instances"}))
